@@ -115,7 +115,7 @@ func (e *arityEngine) callCount(call *ast.CallExpr) (counts, bool) {
 	}
 	takesTr := false
 	for _, a := range call.Args {
-		if wire.Canon(a) == "tr" {
+		if trCanon(a) == "tr" {
 			takesTr = true
 		}
 	}
@@ -185,7 +185,7 @@ func isErrorReturn(r *ast.ReturnStmt) bool {
 		return x.Name == "err"
 	case *ast.CallExpr:
 		fn := wire.Canon(x.Fun)
-		return fn == "readError" || strings.HasPrefix(fn, "fmt.Errorf") || fn == "tr.Err"
+		return fn == "readError" || strings.HasPrefix(fn, "fmt.Errorf") || strings.HasSuffix(fn, ".Err")
 	}
 	return false
 }
@@ -280,7 +280,7 @@ func (e *arityEngine) stmt(s ast.Stmt) (open, done counts) {
 		}
 		open, done = none(), none()
 		exhaustive := false
-		if x.Tag != nil && wire.Canon(x.Tag) == "tr.Token().kind" && len(e.lastExpect) > 0 {
+		if x.Tag != nil && trCanon(x.Tag) == "tr.Token().kind" && len(e.lastExpect) > 0 {
 			labels := map[string]bool{}
 			for _, cc := range x.Body.List {
 				for _, l := range cc.(*ast.CaseClause).List {
@@ -353,12 +353,13 @@ func stmtsBeforeLoop(fd *ast.FuncDecl) []ast.Stmt {
 }
 
 func checkC16(c *core.Ctx) {
-	c.Explainf("C16 (decided clause: parser/formatter sibling agreement; that equal token counts imply equal text, and comment attachment, are NOT decided). format.go is a second consumer of the token grammar, driven by fixed token counts. R1: every token kind for which ReadFile's switch records something in the File has an arm in format's switch that writes. R2: for each paired construct every token count the parser can take along its non-error paths (sum of expectNext arities, expectAnyOfNext = 1, Next = 1, UnNext = -1, readUntil/loops = unbounded; optNewline/skipEndOfLineComments = trivia) must be a count the formatter can consume (constant-trip loops x body + straight-line Next calls; a loop that runs to a delimiter covers every count); both are recomputed from source on every run. R3: where the parser loops (postfix [] in readFieldType) the formatter loops. R4: every token the formatter takes with a bare tr.Next() is written back as its own text (.concrete) or as the same punctuation literal. R5: the readonly marker is carried to the struct formatter.")
+	c.Explainf("C16 (decided clause: parser/formatter sibling agreement; that equal token counts imply equal text, and comment attachment, are NOT decided). format.go is a second consumer of the token grammar, driven by fixed token counts. R1: every token kind for which ReadFile's switch records something in the File has an arm in format's switch that writes. R2: for each paired construct every token count the parser can take along its non-error paths (sum of expectNext arities, expectAnyOfNext = 1, Next = 1, UnNext = -1, readUntil/loops = unbounded; optNewline/skipEndOfLineComments = trivia) must be a count the formatter can consume (constant-trip loops x body + straight-line Next calls; a loop that runs to a delimiter covers every count); both are recomputed from source on every run. R3: where the parser loops (postfix [] in readFieldType) the formatter loops. R4: every token the formatter takes with a bare tr.Next() is written back as its own text (.concrete) or as the same punctuation literal. R4c: a lookahead (a kind test on a token taken by position) puts the token back with UnNext() or writes it on every path of the side where the test fails, before another token is taken or the function returns (go/cfg path rule). R4d: a token or its text is only ever appended, assigned or written in format.go — handing it to any other function is a transformation of source text (a re-spaced `//[tag(…)]` stops being a field tag). R5: the readonly marker is carried to the struct formatter. R6: a line comment reaches the output with its line break: the tokenizer appends everything its delimiter read returned, or every formatter site adds the break.")
 	p := loadRepo(c)
 	if p == nil {
 		return
 	}
 	pkg := p.Bebop()
+	info := pkg.TypesInfo
 	rf := p.FuncDecl(pkg, "ReadFile")
 	ff := p.FuncDecl(pkg, "format")
 	if rf == nil || ff == nil {
@@ -380,8 +381,31 @@ func checkC16(c *core.Ctx) {
 	}
 	for _, cc := range ptop.Body.List {
 		cl := cc.(*ast.CaseClause)
-		src := srcOf(p, cl)
-		records := strings.Contains(src, "= append(f.") || strings.Contains(src, "nextRecord")
+		// the arm records something: it stores into the File, or into a pending
+		// variable declared outside the loop that is not a list of comment lines
+		records := false
+		ast.Inspect(cl, func(n ast.Node) bool {
+			as, ok := n.(*ast.AssignStmt)
+			if !ok || as.Tok != token.ASSIGN {
+				return true
+			}
+			for _, l := range as.Lhs {
+				if fileField(info, l) != "" {
+					records = true
+				}
+				if id, ok := l.(*ast.Ident); ok {
+					if o := info.ObjectOf(id); o != nil && o.Pos() < ptop.Pos() && o.Pos() > rf.Pos() {
+						if sl, isSlice := o.Type().Underlying().(*types.Slice); isSlice {
+							if b, isB := sl.Elem().Underlying().(*types.Basic); isB && b.Kind() == types.String {
+								continue
+							}
+						}
+						records = true
+					}
+				}
+			}
+			return true
+		})
 		for _, e := range cl.List {
 			k := wire.Canon(e)
 			if strings.HasPrefix(k, "tokenKind") && records {
@@ -400,7 +424,27 @@ func checkC16(c *core.Ctx) {
 	if top != nil {
 		for _, cc := range top.Body.List {
 			cl := cc.(*ast.CaseClause)
-			writes := strings.Contains(srcOf(p, cl), "SafeWrite") || strings.Contains(srcOf(p, cl), "readOnly = true")
+			// the arm writes, or raises a flag that a later arm turns into output
+			writes := false
+			ast.Inspect(cl, func(n ast.Node) bool {
+				switch x := n.(type) {
+				case *ast.CallExpr:
+					if sel, ok := x.Fun.(*ast.SelectorExpr); ok && (sel.Sel.Name == "SafeWrite" || sel.Sel.Name == "Write") {
+						writes = true
+					}
+				case *ast.AssignStmt:
+					if x.Tok == token.ASSIGN && len(x.Lhs) == 1 && len(x.Rhs) == 1 {
+						if id, ok := x.Lhs[0].(*ast.Ident); ok {
+							if o := info.ObjectOf(id); o != nil && o.Pos() < top.Pos() {
+								if tv := info.Types[x.Rhs[0]]; tv.Value != nil && tv.Value.String() == "true" {
+									writes = true
+								}
+							}
+						}
+					}
+				}
+				return true
+			})
 			for _, e := range cl.List {
 				if writes {
 					fmtKinds[wire.Canon(e)] = true
@@ -467,10 +511,8 @@ func checkC16(c *core.Ctx) {
 		loops := func(fd *ast.FuncDecl) bool {
 			found := false
 			ast.Inspect(fd.Body, func(n ast.Node) bool {
-				if f, ok := n.(*ast.ForStmt); ok {
-					if strings.Contains(srcOf(p, f), "tokenKindOpenSquare") {
-						found = true
-					}
+				if f, ok := n.(*ast.ForStmt); ok && mentionsIdent(f, "tokenKindOpenSquare") {
+					found = true
 				}
 				return true
 			})
@@ -480,7 +522,7 @@ func checkC16(c *core.Ctx) {
 		early := 0
 		var loopPos token.Pos
 		ast.Inspect(fmtf.Body, func(n ast.Node) bool {
-			if f, ok := n.(*ast.ForStmt); ok && strings.Contains(srcOf(p, f), "tokenKindOpenSquare") && loopPos == 0 {
+			if f, ok := n.(*ast.ForStmt); ok && mentionsIdent(f, "tokenKindOpenSquare") && loopPos == 0 {
 				loopPos = f.Pos()
 			}
 			return true
@@ -531,10 +573,7 @@ func checkC16(c *core.Ctx) {
 				if fe, ok := follow.(*ast.ExprStmt); ok && isMethodCall(fe.X, "tr", "Next") {
 					break
 				}
-				fs := srcOf(p, follow)
-				if strings.Contains(fs, ".concrete") || strings.Contains(fs, "tr.UnNext()") || strings.Contains(fs, "formatType(tr)") ||
-					strings.Contains(fs, "formatMessage(tr") || strings.Contains(fs, "formatStruct(tr") ||
-					strings.Contains(fs, `[]byte(";")`) || strings.Contains(fs, `[]byte(";\n")`) || strings.Contains(fs, `[]byte("[]")`) || strings.Contains(fs, `';'`) {
+				if usesTakenToken(info, follow) {
 					okUse = true
 					break
 				}
@@ -563,8 +602,49 @@ func checkC16(c *core.Ctx) {
 	c.Count("formatter_next_calls", nNext)
 	c.Floor("formatter_next_calls", 20)
 	// ---- R5
-	src := srcOf(p, ff.Body)
-	c.Check("R5", "the readonly marker reaches formatStruct", p.Pos(ff.Pos()), strings.Contains(src, "readOnly = true") && strings.Contains(src, "formatStruct(tr, readOnly,"), "")
+	// a bool raised in the readonly arm is an argument of the formatStruct call
+	passed := map[types.Object]bool{}
+	ast.Inspect(ff.Body, func(n ast.Node) bool {
+		if call, ok := n.(*ast.CallExpr); ok && wire.Canon(call.Fun) == "formatStruct" {
+			for _, a := range call.Args {
+				if id, ok := ast.Unparen(a).(*ast.Ident); ok {
+					if o := info.ObjectOf(id); o != nil {
+						if b, isB := o.Type().Underlying().(*types.Basic); isB && b.Kind() == types.Bool {
+							passed[o] = true
+						}
+					}
+				}
+			}
+		}
+		return true
+	})
+	raised := false
+	ast.Inspect(ff.Body, func(n ast.Node) bool {
+		cl, ok := n.(*ast.CaseClause)
+		if !ok {
+			return true
+		}
+		isRO := false
+		for _, e := range cl.List {
+			if wire.Canon(e) == "tokenKindReadOnly" {
+				isRO = true
+			}
+		}
+		if !isRO {
+			return true
+		}
+		for _, st := range cl.Body {
+			if as, ok := st.(*ast.AssignStmt); ok && len(as.Lhs) == 1 && len(as.Rhs) == 1 {
+				if id, ok := as.Lhs[0].(*ast.Ident); ok && passed[info.ObjectOf(id)] {
+					if tv := info.Types[as.Rhs[0]]; tv.Value != nil && tv.Value.String() == "true" {
+						raised = true
+					}
+				}
+			}
+		}
+		return true
+	})
+	c.Check("R5", "the readonly marker reaches formatStruct", p.Pos(ff.Pos()), raised, "no boolean set in the readonly arm is passed to formatStruct: `readonly struct` is formatted as `struct`")
 }
 
 
@@ -794,7 +874,19 @@ func lineCommentTerminator(c *core.Ctx, p *load.Prog) {
 			}
 			sites++
 			for _, st := range body {
-				if strings.Contains(srcOf(p, st), `'\n'`) || strings.Contains(srcOf(p, st), `"\n"`) {
+				addsBreak := false
+				ast.Inspect(st, func(k ast.Node) bool {
+					if lit, ok := k.(*ast.BasicLit); ok && (lit.Kind == token.CHAR || lit.Kind == token.STRING) {
+						if tv := info.Types[lit]; tv.Value != nil {
+							v := tv.Value.ExactString()
+							if v == "10" || strings.HasSuffix(strings.Trim(v, `"`), `\n`) {
+								addsBreak = true
+							}
+						}
+					}
+					return true
+				})
+				if addsBreak {
 					adding++
 					break
 				}
@@ -869,4 +961,67 @@ func tokensVerbatim(c *core.Ctx, p *load.Prog, rule string) {
 	c.Check(rule, "token text reaches the output verbatim (scan complete)", "format.go", true, "")
 	c.Count("formatter_token_text_uses", uses)
 	c.Floor("formatter_token_text_uses", 30)
+}
+
+
+func mentionsIdent(n ast.Node, name string) bool {
+	found := false
+	ast.Inspect(n, func(m ast.Node) bool {
+		if id, ok := m.(*ast.Ident); ok && id.Name == name {
+			found = true
+		}
+		return !found
+	})
+	return found
+}
+
+// usesTakenToken: the statement writes the current token's text, puts the
+// token back, hands the reader to another formatter function, or writes a
+// literal that is pure punctuation (the formatter re-spells `;` and `[]`).
+func usesTakenToken(info *types.Info, st ast.Stmt) bool {
+	found := false
+	ast.Inspect(st, func(m ast.Node) bool {
+		switch x := m.(type) {
+		case *ast.SelectorExpr:
+			if x.Sel.Name == "concrete" {
+				found = true
+			}
+		case *ast.CallExpr:
+			if isMethodCall(x, "tr", "UnNext") {
+				found = true
+			}
+			// a formatter helper that receives the reader continues from this token
+			if id, ok := x.Fun.(*ast.Ident); ok && strings.HasPrefix(id.Name, "format") && len(x.Args) > 0 {
+				if t := info.TypeOf(x.Args[0]); t != nil && strings.HasSuffix(t.String(), ".tokenReader") {
+					found = true
+				}
+			}
+		case *ast.BasicLit:
+			if x.Kind == token.STRING || x.Kind == token.CHAR {
+				if tv := info.Types[x]; tv.Value != nil {
+					txt := tv.Value.ExactString()
+					if x.Kind == token.CHAR {
+						if r, ok := constInt(info, x); ok {
+							txt = string(rune(r))
+						}
+					} else {
+						txt = strings.Trim(txt, `"`)
+						txt = strings.ReplaceAll(txt, `\n`, "\n")
+					}
+					punct := strings.TrimSpace(txt) != ""
+					for _, r := range txt {
+						if r == ';' || r == '[' || r == ']' || r == '\n' || r == ' ' {
+							continue
+						}
+						punct = false
+					}
+					if punct {
+						found = true
+					}
+				}
+			}
+		}
+		return !found
+	})
+	return found
 }
